@@ -89,7 +89,7 @@ COMMON_ASSUMPTIONS = [
 
 PROPS = {
     "C01": {
-        "mc": DEC_MODELS + ["len_tlc", "len_base", "len_step", "len_progress", "len_tlaps"], "gen": ["decode", "avps", "payload", "decode_big", "many_avps", "avp_lengths", "octet_sweep", "text_classes", "record_product"],
+        "mc": DEC_MODELS + ["len_tlc", "len_base", "len_step", "len_progress", "len_tlaps"], "gen": ["decode", "avps", "payload", "decode_big", "many_avps", "avp_lengths", "octet_sweep", "text_classes", "record_product", "value_products"],
         "rule": "TLC-explored boundary grammars of the decoder machine (every run exported and replayed) + seeded "
                 "random / mutated / raw inputs through both entry points, the bare AVP list reader and the per-type "
                 "readers, in a dev build (overflow checks, debug assertions) and a release build, under catch_unwind "
@@ -97,7 +97,7 @@ PROPS = {
         "assumptions": COMMON_ASSUMPTIONS + ["random inputs up to ~2 KiB; targeted inputs up to 131 KiB (16-bit sums near 65 535 with the octets really present)", "per-case watchdog 10 s (quick) / 30 s (thorough) without progress; after three hangs the remaining cases are not run"],
     },
     "C02": {
-        "mc": DEC_MODELS + ["hid_reveal", "len_tlc", "len_base", "len_step", "len_tlaps"], "gen": ["decode_readers", "avps_readers", "payload_readers", "reveal", "avp_lengths", "octet_sweep", "text_classes", "record_product", "kind_pairs", "small_values"], "readers": "all",
+        "mc": DEC_MODELS + ["hid_reveal", "len_tlc", "len_base", "len_step", "len_tlaps"], "gen": ["decode_readers", "avps_readers", "payload_readers", "reveal", "avp_lengths", "octet_sweep", "text_classes", "record_product", "kind_pairs", "small_values", "value_products"], "readers": "all",
         "rule": "as C01, every input decoded through SliceReader, a monitoring reader that logs each request with the "
                 "octets remaining, and a queue-backed reader; every logged request validated against the Reader contract "
                 "machine; the three outcomes must coincide",
@@ -106,33 +106,33 @@ PROPS = {
                                              "reveal() builds its own SliceReader, so only its requests' bounds (C13) apply there"],
     },
     "C03": {
-        "mc": ["enc_avps", "enc_msgs", "enc_sizes", "enc_huge"], "gen": ["roundtrip_ctl", "many_avps", "small_values", "avp_lengths", "kind_pairs", "text_classes", "rfc_messages"],
+        "mc": ["enc_avps", "enc_msgs", "enc_sizes", "enc_huge"], "gen": ["roundtrip_ctl", "many_avps", "small_values", "avp_lengths", "kind_pairs", "text_classes", "rfc_messages", "value_products"],
         "rule": "value catalogue explored by TLC on the Encoder machine with the specification's decoder applied to the "
                 "result (RoundTrip invariant), each behaviour replayed; seeded random control messages (0..12 AVPs) and "
                 "AVPs of all 40 variants with boundary sizes of the variable parts, up to 65 535-octet messages",
         "assumptions": COMMON_ASSUMPTIONS,
     },
     "C04": {
-        "mc": ["enc_msgs", "dec_data"], "gen": ["roundtrip_data", "avp_lengths", "rfc_messages"],
+        "mc": ["enc_msgs", "dec_data"], "gen": ["roundtrip_data", "avp_lengths", "rfc_messages", "value_products"],
         "rule": "the complete product ids x Ns/Nr x priority x length {absent, exact} x offset {absent, 0, 1, |data|-1} x "
                 "|data| {1,2,17} plus seeded random data messages (payload up to 60 000 octets)",
         "assumptions": COMMON_ASSUMPTIONS,
     },
     "C05": {
-        "mc": DEC_MODELS + ["dec_flagsq"], "gen": ["decode", "avps", "payload", "flags", "ignored", "decode_big", "many_avps", "small_values", "bits", "avp_lengths", "kind_pairs", "octet_sweep", "text_classes", "rfc_messages", "record_product"],
+        "mc": DEC_MODELS + ["dec_flagsq"], "gen": ["decode", "avps", "payload", "flags", "ignored", "decode_big", "many_avps", "small_values", "bits", "avp_lengths", "kind_pairs", "octet_sweep", "text_classes", "rfc_messages", "record_product", "value_products"],
         "rule": "every decode outcome (verdict, value field for field, per-record results) compared with the TLA+ "
                 "decoder's result for the same octets: TLC boundary grammars, flag words under all option sets, seeded "
                 "random / mutated / raw inputs, and pairs differing only in octets the specification ignores",
         "assumptions": COMMON_ASSUMPTIONS,
     },
     "C06": {
-        "mc": ENC_MODELS, "gen": ["encode", "encode_seq", "bitmask", "small_values", "many_avps", "avp_lengths", "kind_pairs", "text_classes", "rfc_messages"],
+        "mc": ENC_MODELS, "gen": ["encode", "encode_seq", "bitmask", "small_values", "many_avps", "avp_lengths", "kind_pairs", "text_classes", "rfc_messages", "value_products"],
         "rule": "octets emitted for the TLC value catalogue and for seeded random values (all AVP variants, control and "
                 "data messages, in and out of the round-trip domain) compared octet for octet with the TLA+ encoder",
         "assumptions": COMMON_ASSUMPTIONS,
     },
     "C07": {
-        "mc": ["enc_sizes", "enc_avps", "enc_huge", "enclen_tlc", "enclen_base", "enclen_step", "enclen_tlaps"], "gen": ["encode", "encode_seq", "small_values", "avp_lengths", "kind_pairs", "text_classes", "rfc_messages"],
+        "mc": ["enc_sizes", "enc_avps", "enc_huge", "enclen_tlc", "enclen_base", "enclen_step", "enclen_tlaps"], "gen": ["encode", "encode_seq", "small_values", "avp_lengths", "kind_pairs", "text_classes", "rfc_messages", "value_products"],
         "rule": "size boundaries of the 10-bit AVP length (values of 1015..1019, 2000 octets) and of the 16-bit message "
                 "length (65 534..65 536 octets), plus seeded random values; panic iff the specification's encoder refuses; "
                 "an independent walk over the emitted length fields; get_length against the emitted size",
@@ -154,7 +154,7 @@ PROPS = {
         "assumptions": COMMON_ASSUMPTIONS,
     },
     "C10": {
-        "mc": ["dec_framing", "dec_avprec", "dec_recprod", "dec_kinds", "dec_data", "dec_loop3", "dec_loop4"], "gen": ["chain", "many_avps", "small_values", "avp_lengths", "kind_pairs", "octet_sweep", "text_classes", "rfc_messages"],
+        "mc": ["dec_framing", "dec_avprec", "dec_recprod", "dec_kinds", "dec_data", "dec_loop3", "dec_loop4"], "gen": ["chain", "many_avps", "small_values", "avp_lengths", "kind_pairs", "octet_sweep", "text_classes", "rfc_messages", "value_products"],
         "rule": "decode -> encode -> strict decode -> encode chains from non-canonical accepted inputs (reserved bits, P/O "
                 "and version under lax options, unset M bit, reserved AVP bits, surplus payload, trailing octets) under "
                 "all option sets; TLC: Normalises on every accepted run of the decoder grammars",
